@@ -176,7 +176,7 @@ func checkC14(P *Prog, r *Result) {
 	// into the next call: C07's reinit rule on the execution and node contexts
 	shareRule(P, r, checkC07, "C07/reinit", func(o Obligation) bool {
 		return strings.Contains(o.Construct, "#zog/internals.ExecCtx.") || strings.Contains(o.Construct, "#zog/internals.SchemaCtx.")
-	}, "C14/no-front-end-state-carried", 8)
+	}, "C14/no-front-end-state-carried", 0)
 }
 
 // requestTableByInterpretation decides zhttp.Request when it is not written as the documented nest of switches.
